@@ -23,7 +23,7 @@ pub fn meta() -> PropMeta {
         nontrivial_floor: 0.3,
         run,
         replay,
-        crashy: false,
+        crashy: true,
     }
 }
 
@@ -567,7 +567,8 @@ pub fn run_peer_case(c: &PeerCase) -> Result<(bool, Vec<String>), String> {
 
 // ---------------------------------------------------------------------------
 
-fn exec_cut(c: &Case, rep: &mut Report, seen: &mut std::collections::HashSet<String>) {
+fn exec_cut(ctx: &ShardCtx, c: &Case, rep: &mut Report, seen: &mut std::collections::HashSet<String>) {
+    ctx.journal("cut", &serde_json::to_value(c).unwrap());
     rep.evaluations += 1;
     let r = guarded(|| run_case(c));
     match r {
@@ -639,7 +640,7 @@ fn run(ctx: &ShardCtx, rep: &mut Report) {
                         continue;
                     }
                     let c = Case { conv: conv.clone(), fault: Some(Fault { dir, at, kind }) };
-                    exec_cut(&c, rep, &mut seen);
+                    exec_cut(ctx, &c, rep, &mut seen);
                 }
             }
         }
@@ -658,6 +659,7 @@ fn run(ctx: &ShardCtx, rep: &mut Report) {
                     }
                     let c = PeerCase { what, with_error, after_frames: after, tokio_seed: ctx.seed.wrapping_add(s / 2), shutdown_fails };
                     rep.evaluations += 1;
+                    ctx.journal("peer", &serde_json::to_value(&c).unwrap());
                     match guarded(|| run_peer_case(&c)) {
                         Ok(Ok((injected, log))) => {
                             rep.class(["peer-close", "peer-end", "peer-detach"][what as usize]);
